@@ -18,21 +18,23 @@ with tempfile.TemporaryDirectory() as td:
         if not any(ch.tag in ('failure', 'error', 'skipped') for ch in tc):
             passed.add(tc.get('classname') + '::' + tc.get('name'))
 missing = sorted(stable - passed)
-if missing and len(missing) < 400:
-    # machine under load (parallel work): re-run only the missing tests, serially, once
-    ids = [m.replace('tests.', 'tests/', 1).replace('::', '.py::', 1) for m in missing]
-    with tempfile.TemporaryDirectory() as td:
-        xml = os.path.join(td, 'j.xml')
-        subprocess.run(['/venv/bin/python', '-m', 'pytest', '-q', '-p', 'no:cacheprovider', '--timeout=900', '-n', '0',
-                        '--junitxml=' + xml] + ids, cwd=repo, env=env, stdout=subprocess.DEVNULL, stderr=subprocess.DEVNULL)
-        try:
-            for tc in ET.parse(xml).getroot().iter('testcase'):
-                if not any(ch.tag in ('failure', 'error', 'skipped') for ch in tc):
-                    passed.add(tc.get('classname') + '::' + tc.get('name'))
-        except Exception as e:
-            print('rerun failed', e)
-    print(f'first pass missing={len(missing)}; after serial re-run missing={len(stable - passed)}')
-    missing = sorted(stable - passed)
+for _attempt in range(3):
+  missing = sorted(stable - passed)
+  if missing and len(missing) < 400:
+      # machine under load (parallel work): re-run only the missing tests, serially, once
+      ids = [m.replace('tests.', 'tests/', 1).replace('::', '.py::', 1) for m in missing]
+      with tempfile.TemporaryDirectory() as td:
+          xml = os.path.join(td, 'j.xml')
+          subprocess.run(['/venv/bin/python', '-m', 'pytest', '-q', '-p', 'no:cacheprovider', '--timeout=900', '-n', '0',
+                          '--junitxml=' + xml] + ids, cwd=repo, env=env, stdout=subprocess.DEVNULL, stderr=subprocess.DEVNULL)
+          try:
+              for tc in ET.parse(xml).getroot().iter('testcase'):
+                  if not any(ch.tag in ('failure', 'error', 'skipped') for ch in tc):
+                      passed.add(tc.get('classname') + '::' + tc.get('name'))
+          except Exception as e:
+              print('rerun failed', e)
+      print(f'first pass missing={len(missing)}; after serial re-run missing={len(stable - passed)}')
+      missing = sorted(stable - passed)
 print(f'stable_pass={len(stable)} passed_now={len(passed)} missing={len(missing)}')
 for m in missing[:40]:
     print('  MISSING', m)
